@@ -18,4 +18,11 @@ with open("/verif/seeded/INDEX.md", "w") as f:
             "Produced by independent sub-agents that saw only the property text. `patch.diff`, `demo.py`, `meta.json` "
             "per directory. Detection = quick tier of the named check run with VERIF_REPO on a scratch worktree carrying the patch.\n\n"
             "| id | change | needs to manifest | caught by (clauses) |\n|---|---|---|---|\n" + "\n".join(rows) + "\n")
+    extra = sorted(glob.glob("/verif/seeded/judged_not_violating/*/meta.json"))
+    if extra:
+        f.write("\n## Proposed changes the lead judged NOT to break the property as stated (kept apart, reasoning in meta.json)\n\n")
+        for d in extra:
+            m = json.load(open(d))
+            f.write("* `%s` - %s: %s\n" % (os.path.relpath(os.path.dirname(d), "/verif/seeded"), (m.get("title") or "")[:140],
+                                          m["lead_judgement"][:400]))
 print(len(rows), "seeds indexed;", sum("MISSED" in r for r in rows), "missed")
